@@ -693,7 +693,7 @@ func (c *checker) writeEvidenceFull(results []*HarnessRun, validated, violations
 		}
 		sort.Strings(he.Assumptions)
 		if hr.sequentialised {
-			assumptions["go statements are executed synchronously at the spawn point (one schedule); race-freedom (C11) assumed"] = true
+			assumptions["go statements are executed on one schedule (synchronously at the spawn point, or - where the harness asks for it - queued until a goroutine blocks); race-freedom (C11) assumed"] = true
 		}
 		hs = append(hs, he)
 		states += hr.paths
